@@ -15,7 +15,11 @@ import tempfile
 import time
 from fractions import Fraction
 
+import sys
 import z3
+
+if hasattr(sys, "set_int_max_str_digits"):
+    sys.set_int_max_str_digits(0)
 
 from . import sym as S
 from .sym import Poly, BoolE, CTX
@@ -120,6 +124,10 @@ def closure(polys, bools):
         elif kind == "uf":
             for a in payload[1]:
                 new.update(a.atoms())
+        elif kind == "maxsel":
+            for t, v in payload:
+                new.update(t.atoms())
+                new.update(v.atoms())
         work.update(new - atoms)
     return atoms, bvars
 
@@ -155,6 +163,8 @@ class Obligation:
                 uses_uf = True
                 continue
             decl.append(f"(declare-const {nm} Real)")
+            if kind == "var" and with_axioms and payload in S.CONST_VALUES:
+                defs.append(f"(assert (= {nm} {_rat(S.CONST_VALUES[payload])}))")
             if kind == "sqrt":
                 if with_axioms:
                     defs.append(f"(assert (>= {nm} 0.0))")
@@ -167,6 +177,12 @@ class Obligation:
             elif kind == "def":
                 if with_axioms:
                     defs.append(f"(assert (= {nm} {poly_smt(payload)}))")
+            elif kind == "maxsel":
+                if with_axioms:
+                    for i_, (t_i, v_i) in enumerate(payload):
+                        conds = [f"(< {poly_smt(t_j)} {poly_smt(t_i)})" for j_, (t_j, _) in enumerate(payload) if j_ != i_]
+                        ant = "(and " + " ".join(conds) + ")" if len(conds) > 1 else (conds[0] if conds else "true")
+                        defs.append(f"(assert (=> {ant} (= {nm} {poly_smt(v_i)})))")
             elif kind == "ite":
                 c, a, b = payload
                 defs.append(f"(assert (= {nm} (ite {bool_smt(c)} {poly_smt(a)} {poly_smt(b)})))")
@@ -267,7 +283,7 @@ class Result:
         return out
 
 
-ABSTRACT_KINDS = ("sqrt", "recip", "def")
+ABSTRACT_KINDS = ("sqrt", "recip", "def", "maxsel")
 
 
 def _pinned(atoms, seed=0):
@@ -276,7 +292,9 @@ def _pinned(atoms, seed=0):
     rng = random.Random(seed)
     out = []
     for i in atoms:
-        if CTX.atoms[i][0] == "var":
+        if CTX.atoms[i][0] == "var" and CTX.atoms[i][1] in S.CONST_VALUES:
+            out.append((i, S.CONST_VALUES[CTX.atoms[i][1]]))
+        elif CTX.atoms[i][0] == "var":
             v = Fraction(rng.randint(-16, 16), 8)
             if v == 0:
                 v = Fraction(3, 8)
@@ -291,7 +309,7 @@ def solve(ob: Obligation, timeout_s=60.0, conditioned=True, confirm=None):
     the ABSTRACT query (axioms of sqrt/recip/def atoms dropped) without paying for the refined query."""
     t_total = 0.0
     script, atoms, bvars = ob.script(with_axioms=False)
-    has_defined = any(CTX.atoms[i][0] in ABSTRACT_KINDS for i in atoms)
+    has_defined = any(CTX.atoms[i][0] in ABSTRACT_KINDS or (CTX.atoms[i][0] == "var" and CTX.atoms[i][1] in S.CONST_VALUES) for i in atoms)
     r, s, dt = _z3_check(script, timeout_s)
     t_total += dt
     if r == "unsat":
